@@ -133,6 +133,14 @@ CHECKS = {
             "flags, instruction order and operand binding, same emulation result.",
             "the printer and the API twin come from one descriptor (the printer is independent of the parser); AddressSanitizer + bounds build",
             "DESIGN.md 4/C15", True),
+    "C05": ("xcomp", "exploration",
+            "bounded exhaustive enumeration of operand-kind, limit and flag spaces compiled for all 8 registered targets under ASan + bounds instrumentation with a watchdog; result/state contract checked after every compile",
+            "Every opcode with every assignment of operand kinds (valid and invalid), sizes and prefixes; programs at and beyond every table "
+            "limit (instructions, variables of each class, arrays, rule constants, code size); flag vectors per target - each compiled for "
+            "sse, avx, mmx, c, c64x-c, neon, altivec and mips: must return within the watchdog without signal, abort or sanitizer report; "
+            "fatal leaves no code, successful native code is in an executable region and runs, a non-fatal failure runs by emulation.",
+            "sanitizer visibility of intra-object overwrites is partial; non-native targets are compiled, not executed",
+            "DESIGN.md 4/C05", True),
 }
 
 NOT_YET = {}
@@ -173,6 +181,8 @@ def main():
             "add_only": True,
         },
         "engines": [
+            {"name": "xcomp", "path": "engines/xcomp.c", "serves_properties": ["C05"],
+             "kind_free_text": "operand-kind / limit / flag space enumerator compiling for every registered target (ASan+bounds, supervised worker, watchdog)"},
             {"name": "xtext", "path": "engines/xtext.c", "serves_properties": ["C15"],
              "kind_free_text": "independent .orc printer over a formatting cross product + field-by-field comparison of parsed program and API twin"},
             {"name": "xemu", "path": "engines/xemu.c", "serves_properties": ["C02", "C18"],
